@@ -25,29 +25,33 @@ type c17Pred struct {
 	// errVal: the error VALUE the failing predicate returns (nil = a private one); the library's own sentinels
 	// are in the alphabet because a predicate built on another accumulator or reader returns exactly those
 	errVal error
+	// both: the failing predicate answers (true, err) - "holds" and "failed" at once; the error is propagated
+	// and the accumulation is not complete
+	both bool
 }
 
 var c17Preds = []c17Pred{
-	{"never", 0, 0, nil},
-	{"done>=1", 1, 0, nil},
-	{"done>=184", 184, 0, nil},
-	{"done>=185", 185, 0, nil},
-	{"done>=368", 368, 0, nil},
-	{"error>=184", 0, 184, nil},
-	{"error>=368", 0, 368, nil},
-	{"done>=184,error>=368", 184, 368, nil},
-	{"error>=185,done>=1", 1, 185, nil},
-	{"error(gots.ErrAccumulatorDone)>=184", 0, 184, gots.ErrAccumulatorDone},
-	{"error(gots.ErrNoPayload)>=1", 0, 1, gots.ErrNoPayload},
-	{"error(io.EOF)>=185,done>=368", 368, 185, io.EOF},
+	{"never", 0, 0, nil, false},
+	{"done>=1", 1, 0, nil, false},
+	{"done>=184", 184, 0, nil, false},
+	{"done>=185", 185, 0, nil, false},
+	{"done>=368", 368, 0, nil, false},
+	{"error>=184", 0, 184, nil, false},
+	{"error>=368", 0, 368, nil, false},
+	{"done>=184,error>=368", 184, 368, nil, false},
+	{"error>=185,done>=1", 1, 185, nil, false},
+	{"error(gots.ErrAccumulatorDone)>=184", 0, 184, gots.ErrAccumulatorDone, false},
+	{"error(gots.ErrNoPayload)>=1", 0, 1, gots.ErrNoPayload, false},
+	{"error(io.EOF)>=185,done>=368", 368, 185, io.EOF, false},
+	{"(true,error)>=184", 0, 184, nil, true},
 }
 
 func (p c17Pred) eval(n int) (bool, error) {
 	if p.errorAt > 0 && n >= p.errorAt {
 		if p.errVal != nil {
-			return false, p.errVal
+			return p.both, p.errVal
 		}
-		return false, errC17Pred
+		return p.both, errC17Pred
 	}
 	if p.doneAt > 0 && n >= p.doneAt {
 		return true, nil
